@@ -659,12 +659,12 @@ T('buf-rename-roles', ['C03', 'C07', 'C08'],
   (A, "_getting", "_timer", 'all'), (A, "inputs", "pending", 'all'), (A, "input_gens", "loaders", 'all'))
 T('buf-inline-arm', ['C03', 'C07', 'C08', 'C15'],
   (A, "            self._getting = self._schedule_with_timeout(self.q.get())", "            self._getting = self.loop.create_task(aio.wait_for(self.q.get(), self.timeout))"))
-T('buf-join-direct', ['C07'],
+B('buf-join-direct', ['C07'], ['C07-W8'],
   (A, "        await self.loop.create_task(self.q.join())\n", "        await self.q.join()\n"))
 T('buf-runner-return-form', ['C03', 'C07', 'C08'],
   (A, "            logging.exception(\"Failed to run %s, retrying\", self.func)\n        else:\n            self.event.set()",
    "            logging.exception(\"Failed to run %s, retrying\", self.func)\n            return\n        self.event.set()"))
-T('buf-loader-except-exception', ['C03', 'C07'],
+B('buf-loader-except-exception', ['C03'], ['C03-S5'],
   (A, "            except BaseException:  # noqa\n                logger.exception(\"Failed to get args from: %r\", iterable)", "            except Exception:  # noqa\n                logger.exception(\"Failed to get args from: %r\", iterable)"))
 T('buf-done-before-clear', ['C07', 'C03'],
   (A, "            self.event.clear()  # Ensure cleared in case previous cancel\n            self.q.task_done()", "            self.q.task_done()\n            self.event.clear()  # Ensure cleared in case previous cancel"))
@@ -867,3 +867,46 @@ T('gather-via-variable', ['C20'],
   (A, "    for res in await aio.gather(*aws, return_exceptions=True):", "    results = await aio.gather(*aws, return_exceptions=True)\n    for res in results:"))
 T('raise-first-keyword', ['C20'],
   (A, "    async for exc in gather_excs(aws, only):", "    async for exc in gather_excs(aws, only=only):"))
+
+
+# -- helper extraction twins (inlined by the CFG builder) ---------------------
+T('cache-finish-helper', ['C01', 'C05', 'C06', 'C14'],
+  (A, """            if do_caching:  # No other task to wait for, cache the value
+                try:""", """            if do_caching:  # No other task to wait for, cache the value
+                def _finish() -> None:
+                    with event_making_lock:
+                        event.set()
+                        if events.get(key, (None, None))[1] is event:
+                            del events[key]
+
+                try:"""),
+  (A, """                finally:
+                    with event_making_lock:
+                        # Wake up any waiting tasks
+                        event.set()
+                        # Allow garbage collection and/or another loop
+                        # to take over caching if this failed. Another
+                        # loop may have taken over in the meantime, only
+                        # remove the marker if it is still this task's.
+                        if events.get(key, (None, None))[1] is event:
+                            del events[key]
+                return result""", """                finally:
+                    _finish()
+                return result"""))
+T('cache-key-helper', ['C14', 'C01'],
+  (A, "        key = args, frozenset(kwargs.items())\n", "        def _make_key(a: Any, k: Any) -> Any:\n            return a, frozenset(k.items())\n\n        key = _make_key(args, kwargs)\n"))
+
+B('fl-ctx-releases-on-failed-acquire', ['C02'], ['C02-R8'],
+  (F, """        if not self.acquire(blocking, timeout, poll_interval):
+            raise TimeoutError("Failed to acquire file lock:", self._lock_file)
+        try:
+            yield""", """        try:
+            if not self.acquire(blocking, timeout, poll_interval):
+                raise TimeoutError("Failed to acquire file lock:", self._lock_file)
+            yield"""))
+B('bat-dispatcher-returns-on-empty', ['C04', 'C09'], ['C04-B8', 'C09-R5'],
+  (A, "            tasks = await self._get_next_batch()\n", "            tasks = await self._get_next_batch()\n            if not tasks:\n                return\n"))
+B('bat-filtered-batch', ['C10'], ['C10-R2'],
+  (A, "                break\n        return tasks\n", "                break\n        return [t for t in tasks if not t[2].done()]\n"))
+T('buf-loader-except-exception-and-cancel', ['C03'],
+  (A, "            except BaseException:  # noqa\n                logger.exception(\"Failed to get args from: %r\", iterable)", "            except (Exception, aio.CancelledError):  # noqa\n                logger.exception(\"Failed to get args from: %r\", iterable)"))
